@@ -230,11 +230,12 @@ fn shrink<L: Layer, T: ValueTree<Value = L::Case> + ?Sized>(
 ) -> (L::Case, String, u64) {
     let mut best = first;
     let mut evals = 0u64;
+    let t0 = std::time::Instant::now();
     if !tree.simplify() {
         return shrink_structural(layer, ctx, best.0, best.1);
     }
     loop {
-        if evals >= ctx.max_shrink_evals {
+        if evals >= ctx.max_shrink_evals || t0.elapsed().as_secs() > 15 {
             break;
         }
         evals += 1;
@@ -270,7 +271,13 @@ pub fn shrink_structural<L: Layer>(layer: &L, ctx: &Ctx, case: L::Case, detail: 
     let mut best = (case, detail);
     let mut evals = 0u64;
     let budget = ctx.max_shrink_evals * 100;
+    let t0 = std::time::Instant::now();
     'outer: loop {
+        // shrinking is best effort: a wall-clock budget keeps slow (e.g. hanging) cases from
+        // stalling the run; the failure is reported as far as it was shrunk
+        if t0.elapsed().as_secs() > 40 {
+            break;
+        }
         let cands = layer.shrink_candidates(&best.0);
         if cands.is_empty() {
             break;
